@@ -67,12 +67,15 @@ CHECKS = {
               " Obligation: the texts of pass 2 and pass 3 (thorough: up to pass 5) are byte-identical; plus the cross-kind part: "
               "emit_K2(parse_K1(emit_K1(ir))) must be a fixed point of emit_K2 . parse_K2 after one pass, for every ordered pair of kinds."),
     "C09": dict(level="model_checking", engine="E3", design="5/C09",
-                technique="TLC explicit-state model of sync (TLA+) with every model transition replayed against the implementation, plus bounded-exhaustive product enumeration",
+                technique="TLC explicit-state model of sync (TLA+) with every model transition and every model path of length 2 (thorough 3) replayed against the implementation, plus bounded-exhaustive product enumeration",
                 text="models/SyncProtocol.tla specifies sync over 3 files x 5 abstract contents (written from the property text). TLC "
                      "checks the model's own invariants and dumps the complete state graph (302 states, 4530 transitions); every Sync "
                      "transition with a distinct (abstract pre-state, action) - 1125 - is replayed on real files through "
                      "ground_truth: hand-written templates concretise the pre-state, an ast-based extractor that never calls doctrans "
-                     "abstracts the result, which must equal the model's successor (state, report, accepted/rejected). In addition the "
+                     "abstracts the result, which must equal the model's successor (state, report, accepted/rejected). Whole paths of "
+                     "the graph are replayed too - accepted Sync ; Sync from each of the 125 initial states (4050 paths; thorough: "
+                     "Sync ; any action ; Sync, 60750 paths) - with the state carried by the files the implementation itself "
+                     "produced and the abstraction compared with the model state after every step. In addition the "
                      "product truth kind x target subset x 6 pre-states per target x function/method x interface version x API/CLI "
                      "and invocations with a second file of the truth's kind, with one kind only and several files, with a target of "
                      "another kind inside the truth's file, and with six textual surroundings of the target (unterminated / "
@@ -169,7 +172,7 @@ CHECKS = {
                      "2L+3, 5L, plus texts of 41 absolute lengths (with a trailing default sentence, with dashes) so that sweeping "
                      "L moves the line break across every position - with each of 7 emitter kinds, word_wrap on and off, parses "
                      "both artefacts and compares the projections field by field.",
-                note="Trusted: textwrap. Types are compared with whitespace removed, prose modulo runs of whitespace."),
+                note="Trusted: textwrap. Types are compared modulo whitespace outside string literals, prose modulo runs of whitespace."),
     "C19": dict(level="exploration", engine="E1", design="5/C19",
                 technique="bounded-exhaustive enumeration of gen invocations, output judged by ast / exec / inspect",
                 text="Every combination of mapping (ordered selections of 1..2 quick / 1..3 thorough entries from class+__init__ plain / "
